@@ -145,6 +145,12 @@ func (s *RelationshipPatternVisitor) EnterOC_RangeLiteral(ctx *parser.OC_RangeLi
 			}
 		}
 	}
+
+	// A range without the '..' token names an exact number of hops: [*3] is [*3..3], not [*3..]
+	if patternRange := s.RelationshipPattern.Range; state == stateFirstIndex && patternRange.StartIndex != nil {
+		exactHops := *patternRange.StartIndex
+		patternRange.EndIndex = &exactHops
+	}
 }
 
 func (s *RelationshipPatternVisitor) EnterOC_Properties(ctx *parser.OC_PropertiesContext) {
